@@ -1,6 +1,7 @@
 """C19 — named args: text, ordered pairs, one JSON object per line (DESIGN §4 C19)."""
 import os
 import re
+from rules.c02 import cmp_sides
 import qlib
 from qlib import (peel_not, AnalysisBroken, strip, isnode, walk, is_call, norm_cmp, var_ref, is_null, const_val, short, call_obj,
                   expr_key, field_name, is_this_field)
@@ -23,7 +24,8 @@ EXPLANATION = ("Named arguments. R1 (exhaustive over every generator macro defin
                "the last one; the values are sanitised only after the split (the separator itself is non-printable)."
                " R3g-i: the JSON sink's template copy, its newline rewrite, and the key/value loop exactly when a list exists. R4f: the splitter keeps nothing between statements. R5b: the escaped-brace test is made on the first '{' found from first + 1 on, only when one was found. R7t-R9 (= C03.R4t, C10.R2, C14.R1h): the pairs travel with the event and never stay behind in a slot; the JSON line is written whole."
                ' R10 (= C12.R9a): a statement with named placeholders made through LOG_RUNTIME_METADATA is delivered like any other.'
-               " R11 (= C12.R5): a statement with named args is handed to the sinks whole, decided from the event's named-args list.")
+               " R11 (= C12.R5): a statement with named args is handed to the sinks whole, decided from the event's named-args list."
+               " R12: LOG_RUNTIME_METADATA appends file, line and function to the user's arguments (count re-derived from the macro's expansion); the decoder takes exactly that many pairs off the end of the named-args list, guarded by the same count, before the run-time metadata is applied.")
 TECHNIQUE = 'static analysis: custom checker over clang AST/CFG facts (macro-expansion witnesses, join/split agreement, path rules) plus a compile-time witness (static_assert table of 30k templates evaluated by the compiler) for the constexpr named-args flag'
 NOT_DECIDED = ("The brace scanner for every template, values that contain the whole three-byte separator (a known dynamic risk: R4 "
                "decides that join and split agree on the separator, not that no value contains it), JSON escaping (excluded by the "
@@ -59,6 +61,7 @@ def run(ctx):
     # one JSON object per statement: a statement with named args is handed to the sinks whole, never split at its newlines — decided
     # from the event's named-args list, which the run-time-metadata path keeps while it replaces the metadata (= C12.R5)
     c12.r5(Renamed(ctx, "C12.R5", "C19.R11"), facts)
+    r12_runtime_metadata_pairs(ctx, facts)
 
 
 def r1(ctx):
@@ -182,6 +185,54 @@ def r2(ctx, facts):
     ok = ok and bool(resize) and any(is_call(x, r"std::vector<.*>::size$") and var_ref(call_obj(x)) == pn.rec["params"][1]["did"] for x in walk(resize[0]))
     ctx.ob("C19.R2f", "_populate_formatted_named_args:pairs-in-order", ok,
            "the list has one pair per placeholder name, keys copied index by index, values filled by the split formatter", fn=pn)
+
+
+def r12_runtime_metadata_pairs(ctx, facts):
+    """R12: the key/value pairs of a LOG_RUNTIME_METADATA statement are those of its own placeholders: the macro appends file, line and
+    function to the user's arguments (they travel inside the formatted text); the decoder takes exactly that many pairs off the end of
+    the list before the run-time metadata is applied. Writer/reader agreement between LogMacros.h (re-derived from the macro's
+    expansion on every run) and the backend."""
+    import gen_macros
+    path, table, gens = gen_macros.generate(())
+    mf = ctx.facts(path, "A", ())
+    appended = set()
+    for name in ("LOG_RUNTIME_METADATA", "QUILL_LOG_RUNTIME_METADATA"):
+        fs = mf.fn("qvm::m_" + name, "A")
+        if not fs:
+            continue
+        for c in fs[0].calls(r"^quill::LoggerImpl<.*>::log_statement<"):
+            args = c.get("args") or []
+            marks = [a for a in args[2:] if any(is_call(x, r"^qv_arg$") for x in walk(a))]
+            appended.add(len(args) - 2 - len(marks))
+    if len(appended) != 1:
+        raise AnalysisBroken("LOG_RUNTIME_METADATA: number of arguments the macro appends could not be derived from its expansion (%s)" % sorted(appended))
+    k = appended.pop()
+    dec = facts.need(BW + "_populate_transit_event_from_frontend_queue", "A")[0]
+    g = dec.g
+    rs = [c for c in dec.calls(r"std::vector<std::pair<.*>::resize$") if any(x["k"] == "MemberExpr" and x.get("mname") == "named_args" for x in walk(call_obj(c)))]
+    ap = npos(dec, dec.calls(r"BackendWorker::_apply_runtime_metadata$"))
+    ok = bool(rs) and bool(ap)
+    took = []
+    for c in rs:
+        a = strip(c["args"][0], casts=True)
+        if isnode(a) and a["k"] == "BinaryOperator" and a["op"] == "-" and any(is_call(x, r"std::vector<.*>::size$") for x in walk(a["lhs"])):
+            took.append(const_val(a["rhs"]))
+        else:
+            took.append(None)
+        # ... before the metadata object is replaced (its named-args flag is what tells that there are pairs)
+        ok = ok and all(g.exists_path(g.positions(c), [p_]) for p_ in ap) and not any(g.exists_path([p_], g.positions(c)) for p_ in ap)
+    guards = []
+    for bid in g.blocks:
+        c = g.term_cond(bid)
+        cs = cmp_sides(c) if c is not None else None
+        if cs and any(is_call(x, r"std::vector<.*>::size$") and any(y["k"] == "MemberExpr" and y.get("mname") == "named_args" for y in walk(x)) for x in walk(c)):
+            lo, hi = strip(cs[1], casts=True), strip(cs[2], casts=True)
+            # k <= size  /  k - 1 < size
+            if const_val(lo) is not None:
+                guards.append(const_val(lo) + (1 if cs[0] == "<" else 0))
+    ctx.ob("C19.R12", "_populate_transit_event_from_frontend_queue:runtime-metadata-pairs", ok and took == [k] and (not guards or guards == [k]),
+           "LOG_RUNTIME_METADATA appends %d arguments to the user's (derived from the macro's expansion); the decoder takes %s pair(s) off "
+           "the end of the named-args list, only when the list has at least %s, before the run-time metadata is applied" % (k, took, guards or "that many"), fn=dec)
 
 
 def r3(ctx, facts):
